@@ -75,6 +75,55 @@ def blocking(topo, names=None):
     return topo
 
 
+def eph_relay(maxseq=40, **kw):
+    """S (a producer slower than the poll interval) -> D listening with '?' and numbering its own output -> E"""
+    return Topo('EphRelay', {'S': dict(nout=1, beh=beh('origin', tseq=[['main']], slow=True)),
+                             'D': dict(srcs=[src('S', eph=1)], nout=1),
+                             'E': dict(srcs=[src('D')])}, maxseq=maxseq, **kw)
+
+
+def required_tee(maxseq=60, **kw):
+    """S with consumers A (not required) and B (declared a required output)"""
+    t = tee(maxseq=maxseq, **kw)
+    t.filters['S']['required'] = ['B']
+    t.name = 'RequiredTee'
+    return t
+
+
+def lowlat(topo, names):
+    """the named consumers receive in low-latency mode (sources_low_latency: no request for the next frame ahead of time)"""
+    for f in names:
+        topo.filters[f]['beh']['lowlat'] = True
+    topo.name += 'LL' + ''.join(names)
+    return topo
+
+
+def join_timeout(maxseq=3, ticks=2, **kw):
+    """a join of two independent sources that does not wait for a silent source for ever: sources_timeout (Filter.loop_once
+    calls process() with {} and sends what it returns), relaying to a sink"""
+    return Topo('JoinTimeout', {'X': dict(nout=1, beh=beh('origin', tseq=[['main']])),
+                                'Y': dict(nout=1, beh=beh('origin', tseq=[['main']])),
+                                'J': dict(srcs=[src('X', topics=[('main', 'x')]), src('Y', topics=[('main', 'y')])], nout=1,
+                                          sources_timeout=100 * ticks),
+                                'K': dict(srcs=[src('J')])}, maxseq=maxseq, **kw)
+
+
+def join_slow(maxseq=80, **kw):
+    """an independent join of a fast source and a source slower than the request interval"""
+    return Topo('JoinSlow', {'S': dict(nout=1, beh=beh('origin', tseq=[['main']])),
+                             'T': dict(nout=1, beh=beh('origin', tseq=[['main']], slow=True)),
+                             'K': dict(srcs=[src('S', topics=[('main', 's')]), src('T', topics=[('main', 't')])])},
+                maxseq=maxseq, **kw)
+
+
+def same_id(topo, names, cid):
+    """the named filters are configured with the same filter id `cid` (replicas; the protocol tells them apart by uid)"""
+    for f in names:
+        topo.filters[f]['cid'] = cid
+    topo.name += 'SameId'
+    return topo
+
+
 def with_required(topo):
     """every publisher declares its synchronized consumers as required outputs (the C03 assumption)"""
     for g in topo.names:
@@ -171,7 +220,15 @@ def eph_first(maxseq=3, slowK=False, **kw):
     }, maxseq=maxseq, **kw)
 
 
-ALL.update(eph_first=eph_first)
+def dual_attach(maxseq=3, slowK=False, **kw):
+    """one consumer attached to the same publisher twice: synchronized for topic main, as a '?' listener for topic b"""
+    return Topo('DualAttach', {
+        'S': dict(nout=1, beh=beh('origin', tseq=[['main', 'b']])),
+        'K': dict(srcs=[src('S', topics=[('main', 'main')]), src('S', eph=1, topics=[('b', 'b')])], beh=beh('sink', slow=slowK)),
+    }, maxseq=maxseq, **kw)
+
+
+ALL.update(eph_first=eph_first, dual_attach=dual_attach)
 
 
 def join_late(maxseq=6, **kw):
@@ -315,7 +372,17 @@ def chain3_empty(maxseq=4, **kw):
     return t
 
 
-ALL.update(chain3_empty=chain3_empty)
+def chain3_none_empty(maxseq=5, **kw):
+    """the relay returns None for frame 1 and (from the origin's empty frame 2) an empty dict next; the sink subscribes to the
+    topics explicitly: the first thing it hears of id 2 is the topics message of a set that holds none of its topics"""
+    t = chain3(maxseq=maxseq, skip=(1,), **kw)
+    t.filters['S']['beh']['tseq'] = [['main', 'b'], ['main', 'b'], [], ['main', 'b'], ['main', 'b']]
+    t.filters['K']['srcs'] = [src('A', topics=[('main', 'main'), ('b', 'b')])]
+    t.name = 'Chain3NoneEmpty'
+    return t
+
+
+ALL.update(chain3_empty=chain3_empty, chain3_none_empty=chain3_none_empty)
 
 
 def balance2_eph(maxseq=6, w_ms=None, slow1=True, **kw):
